@@ -4,7 +4,9 @@ from vf.props import _rtc
 
 LEVEL = "other"
 LEVEL_TEXT = _rtc.MIXED
-EXPLANATION = ("proved: SatCacheMixin (10 methods) and ModelCacheMixin (min, max, eval, solution, satisfiable, _add) each preserve their cache "
+EXPLANATION = ("proved: the solver-object protocol of FullFrontend (15 obligations over a ghost backend: the solver object handed to the backend always holds "
+               "the constraints, a shared solver object is cloned before it is extended, answers are returned unchanged, UnsatError / ClaripyFrontendError "
+               "exactly when the backend's answer says so, max/min pre-constrain soundly); SatCacheMixin (10 methods) and ModelCacheMixin (min, max, eval, solution, satisfiable, _add) each preserve their cache "
                "invariant and answer per specification, in isolation over a finite universe; bounded: operation histories on Solver, "
                "SolverCacheless, SolverStrings (reuse on/off) judged by a stateless reference")
 TECHNIQUE = "mixin-in-isolation deductive proofs (pyvc, z3) + bounded run-time contracts on histories"
@@ -12,10 +14,13 @@ RULE = _rtc.RTC_RULE
 M = "vf.contracts.mixins"
 FUNCTIONS = ["SatCacheMixin." + m for m in ["satisfiable", "check_satisfiability", "eval", "batch_eval", "min", "max", "solution", "unsat_core", "simplify", "_add"]] + \
             ["ModelCacheMixin." + m for m in ["min", "max", "eval", "batch_eval", "solution", "satisfiable", "_add", "_get_models", "_get_solutions", "_model_hook"]] + \
-            ["BackendZ3._extrema", "BackendZ3._batch_eval"]
+            ["BackendZ3._extrema", "BackendZ3._batch_eval"] + \
+            ["FullFrontend." + m for m in ["_get_solver", "_add_constraints", "_add", "_copy", "_blank_copy", "simplify", "downsize", "satisfiable", "check_satisfiability",
+                                           "eval", "batch_eval", "solution", "is_true", "is_false", "max", "min", "unsat_core"]]
 TRUSTED = _rtc.RTC_TRUSTED + ["contract of the stack below each mixin (vf/contracts/mixins.py: Spec, MSpec), incl. BackendZ3._extrema's model-callback behaviour",
                                "contract of ModelCache.eval_ast (value of the expression under the cached model)"]
-ASSUMPTIONS = ["mixins are parametric in the constraint language: proofs are over a universe of 8 (SatCache) / 4 (ModelCache) assignments and 2-bit values",
+ASSUMPTIONS = ["FullFrontend protocol: reuse_z3_solver off (the reuse mode is a recorded finding); the single-constraint shortcut of check_satisfiability is covered by the bounded part",
+               "mixins are parametric in the constraint language: proofs are over a universe of 8 (SatCache) / 4 (ModelCache) assignments and 2-bit values",
                "ModelCacheMixin.update/split/combine and _trivial_model_optimization are not under contract (bounded part only)",
                "per-layer contracts compose to histories by induction (stated, not mechanised)"]
 
@@ -27,4 +32,6 @@ def tasks(tier, seed=0):
     Z = "vf.contracts.z3solve"
     out += [task(Z, "ob_batch_eval", "z3solve._batch_eval/state-restored+results", ["C17", "C14", "C11"], tier=tier),
             task(Z, "ob_extrema", "z3solve._extrema/true-optimum", ["C11", "C17"], tier=tier)]
+    from vf.contracts import fullfront
+    out += [task("vf.contracts.fullfront", "ob_fullfront", f"fullfrontend.{m}/protocol", ["C11", "C14"], method=m, tier=tier) for m in fullfront.METHODS]
     return out + _rtc.rtc_tasks("C11", tier, seed)
